@@ -176,6 +176,89 @@ def run_k1(k1, casefile, variants, eps, batch, timeout=600):
     return res, ("HARNESS-TIMEOUT" in out)
 
 
+def build_ooo_driver():
+    ok, out = common.coq_make(["Mgr/OooSched.vo"])
+    if not ok:
+        raise RuntimeError("coq build of the scheduler model failed:\n" + out[-3000:])
+    od = os.path.join(common.BUILD, "ocaml")
+    os.makedirs(od, exist_ok=True)
+    exe = os.path.join(common.BUILD, "bin", "ooo_driver")
+    src = os.path.join(common.VERIF, "ocaml", "ooo_driver.ml")
+    vo = os.path.join(common.COQDIR, "Mgr", "OooSched.vo")
+    ml = os.path.join(od, "ooo_model.ml")
+    if (not os.path.exists(ml)) or os.path.getmtime(ml) < os.path.getmtime(vo):
+        common.run(["coqc", "-Q", "..", "IMB", "ExtractOoo.v"], cwd=os.path.join(common.COQDIR, "Extract"), check=True)
+    if (not os.path.exists(exe)) or os.path.getmtime(exe) < max(os.path.getmtime(ml), os.path.getmtime(src)):
+        common.run("cp %s %s/ && cd %s && ocamlfind ocamlopt -w -a ooo_model.mli ooo_model.ml ooo_driver.ml -o %s"
+                   % (src, od, od, exe), check=True)
+    return exe
+
+
+def ooo_scripts(rng, tier):
+    """op scripts for the AES-CBC managers: ties on lengths, refills mid-flight, flush at every occupancy"""
+    out = []
+    n = 6 if tier == "quick" else 40
+    for k in range(n):
+        ops = []
+        jid = 1
+        style = k % 3
+        for i in range(300 if tier == "quick" else 1200):
+            r = rng.below(100)
+            if style == 0:          # mostly equal lengths: ties everywhere
+                ln = rng.choice([4, 4, 4, 8])
+            elif style == 1:        # one short + rest long
+                ln = rng.choice([1, 64, 64, 63, 2])
+            else:
+                ln = 1 + rng.below(64)
+            if r < 68:
+                ops.append("S %d %d %d" % (rng.choice([16, 16, 24, 32]), ln, jid))
+                jid += 1
+            else:
+                ops.append("F")
+            if rng.chance(1, 50):
+                ops += ["F"] * rng.below(20)
+        ops += ["F"] * 70
+        out.append(ops)
+    return out
+
+
+def ooo_state_tie(res, rng, tier, workdir):
+    k2 = common.build_harness("k2_ooo")
+    drv = build_ooo_driver()
+    scripts = ooo_scripts(rng, tier)
+    jobs = []
+    variants = [("sse", 0), ("sse", 1), ("sse", 2), ("avx2", 0), ("avx2", 3), ("avx512", 0), ("avx512", 3)]
+    for i, ops in enumerate(scripts):
+        sp = os.path.join(workdir, "ooo_s%d.txt" % i)
+        open(sp, "w").write("\n".join(ops) + "\n")
+        for vi, (arch, fl) in enumerate(variants):
+            if tier != "quick" or vi == i % len(variants) or i == 0:
+                jobs.append((i, sp, arch, fl))
+
+    def one(j):
+        i, sp, arch, fl = j
+        tp = os.path.join(workdir, "ooo_t%d_%s_%d.txt" % (i, arch, fl))
+        try:
+            p = common.run([k2, arch, str(fl), sp], env=common.lib_env(), timeout=120)
+            open(tp, "w").write(p.stdout)
+            d = common.run([drv, tp], timeout=300)
+            summ = [l for l in d.stdout.splitlines() if l.startswith("SUMMARY")]
+            mism = [l[:600] for l in d.stdout.splitlines() if l.startswith("MISMATCH")]
+            if p.returncode != 0 or not summ:
+                mism.append("harness/driver failed rc=%s %s %s" % (p.returncode, p.stderr[-200:], d.stderr[-200:]))
+            st = dict(t.split("=") for t in summ[0].split()[1:]) if summ else {}
+        except Exception as ex:
+            mism, st = ["exception: %r" % ex], {}
+        return dict(i=i, arch=arch, flags=fl, mism=mism, stats=st, script=sp)
+    outs = []
+    with cf.ThreadPoolExecutor(max_workers=common.NCPU) as ex:
+        outs = list(ex.map(one, jobs))
+    res.coverage["scheduler_state_traces"] = len(outs)
+    res.coverage["scheduler_state_calls_compared"] = sum(int(o["stats"].get("ops", 0)) for o in outs)
+    res.coverage["scheduler_max_busy_lanes"] = max([int(o["stats"].get("maxbusy", 0)) for o in outs] + [0])
+    return [o for o in outs if o["mism"]]
+
+
 def known_key(name, var):
     arch = var.split(":")[0]
     return "alg=%s arch=%s" % (name.split("+")[0], arch)
@@ -294,6 +377,7 @@ def main(tier, seed):
         "differences": len(diffs), "lib_build_s": round(tb, 1), "run_s": round(time.time() - t0, 1),
         "traces_validated_against_impl": len(together),
     })
+    sched_bad = ooo_state_tie(res, Rng(seed + 17), tier, workdir)
     broken_proof = pres["discharged"] != pres["obligations"] or pres["failed"] or pres["obligations"] == 0
     # group unexplained differences by (alg, arch) and report the smallest reproducer of each group
     groups = {}
@@ -306,9 +390,13 @@ def main(tier, seed):
         if d["kind"] == "differs":
             rp["case_file_lines"] = open(d["file"]).read().splitlines()[:40]
         res.violation(rp, name="%s_%s" % (g[0], g[1]))
-    if broken_proof and not groups:
-        res.violation(dict(property=PID, broken_obligations=pres["failed"], log=pres["log"][-2000:],
-                           note="theorems of Props/Properties_C04.v no longer check; alone-vs-together differential found no failing schedule"),
+    if (broken_proof or sched_bad) and not groups:
+        res.violation(dict(property=PID, broken_obligations=pres["failed"], log=pres["log"][-2000:] if broken_proof else "",
+                           scheduler_state_mismatches=[dict(arch=o["arch"], flags=o["flags"], mism=o["mism"][:3],
+                                                            script=open(o["script"]).read().splitlines()[:400]) for o in sched_bad[:2]],
+                           note="theorems of Props/Properties_C04.v / the scheduler model Mgr/Ooo.v no longer check against this tree "
+                                "(lens / unused_lanes / job_in_lane of the AES-CBC managers differ from the model, or a proof broke); "
+                                "the alone-vs-together differential found no job whose result changes"),
                       note="no-failing-input-found", name="unproved")
     res.assumptions = ["every submit/flush routine is an instance of the generic scheduler Mgr/Ooo.v (hand model)",
                        "SIMD kernels are lane-independent (checked only by this differential)"]
